@@ -76,7 +76,7 @@ pub fn register(l: &mut Vec<Obl>) {
                 r
             });
         if heavy {
-            obl!(l; format!("c08_blend_{}_prealpha_range", mode), "C08", Tier::Thorough,
+            obl!(l; format!("c08_blend_{}_prealpha_range", mode), "C08", Tier::Open,
                 format!("blend mode {} on premultiplied colours: the result component lies in [0,1] and does not exceed the result alpha (one lane; all lanes run the same code)", mode),
                 ["<PreAlpha<C> as Blend>", "blend::blend::blend_separable", format!("blend::blend::{}_blend", mode)],
                 [var("src_r", 0.0, 1.0), var("src_alpha", 0.0, 1.0), var("dst_r", 0.0, 1.0), var("dst_alpha", 0.0, 1.0)];
@@ -92,7 +92,7 @@ pub fn register(l: &mut Vec<Obl>) {
                     r
                 });
         }
-        obl!(l; format!("c08_blend_{}_alpha", mode), "C08", if heavy { Tier::Thorough } else { Tier::Quick },
+        obl!(l; format!("c08_blend_{}_alpha", mode), "C08", if heavy { Tier::Open } else { Tier::Quick },
             format!("blend mode {} on straight colours with alpha (Alpha<LinSrgb>): result colour x result alpha equals the W3C premultiplied \
                      formula within 1e-9, alpha as above, and the straight result components lie in [0,1]", mode),
             ["<Alpha<C,T> as Blend>", "blend::blend::blend_separable", format!("blend::blend::{}_blend", mode), "BlendInput::from(Alpha)", "PreAlpha::unpremultiply"],
